@@ -236,7 +236,12 @@ def coq_eval_files(pid, files, timeout=600, jobs=None):
             p = subprocess.run(
                 f"ulimit -s unlimited 2>/dev/null; timeout {timeout} coqc -q -Q {COQ}/theories D3 {f} > {f}.out 2>&1",
                 shell=True, cwd=str(Path(f).parent))
-        return f, (p.returncode, Path(f + ".out").read_text())
+        try:
+            out = Path(f + ".out").read_text()
+        except OSError:
+            out = "<output file vanished: another run of the same check wiped the work directory>"
+            return f, (1, out)
+        return f, (p.returncode, out)
 
     with ThreadPoolExecutor(max_workers=jobs) as ex:
         return dict(ex.map(one, list(files)))
